@@ -270,3 +270,27 @@ Fixpoint lspec_run (procs : list lk) (s : mspec) (l : list (lop * obs)) : bool :
   end.
 Definition lspec_ok (procs : list lk) (l : list (lop * obs)) : bool :=
   lspec_run procs {| ms_shut := false; ms_xshut := map (fun _ => 0) procs |} l.
+
+(** * Concurrent Shutdown / ForceFlush storms on the log and metric providers: what is observable
+    after all callers of one round have returned. *)
+
+(** Log: every processor saw exactly one Shutdown, every exporter that exists exactly one, every
+    Shutdown call returned nil (LoggerProvider.Shutdown is documented to be a no-op afterwards) and
+    every ForceFlush nil. *)
+Definition lstorm_ok (procs : list lk) (pshut xshut : list nat) (shut_errs flush_errs : list err) : bool :=
+  (length pshut =? length procs) && (length xshut =? length procs) &&
+  forallb (fun c => c =? 1) pshut &&
+  forallb (fun pc => if has_std (fst pc) then snd pc =? 1 else snd pc =? 0) (combine procs xshut) &&
+  negb (length shut_errs =? 0) &&
+  forallb (fun e => err_eqb e ENil) shut_errs && forallb (fun e => err_eqb e ENil) flush_errs.
+
+(** Metric: every exporter saw exactly one Shutdown; exactly one Shutdown call performed it (nil),
+    every other one returned ErrReaderShutdown; ForceFlush returned nil, ErrReaderShutdown or the
+    error of the cancelled collection; afterwards every reader's Collect reports the shutdown. *)
+Definition mstorm_ok (readers : list rk) (xshut : list nat) (shut_errs flush_errs collect_after : list err) : bool :=
+  (length xshut =? length readers) &&
+  forallb (fun rc => if periodic_std (fst rc) then snd rc =? 1 else snd rc =? 0) (combine readers xshut) &&
+  (length (filter (fun e => err_eqb e ENil) shut_errs) =? 1) &&
+  forallb (fun e => err_in e [ENil; EShut]) shut_errs &&
+  forallb (fun e => err_in e [ENil; EShut; ECtx]) flush_errs &&
+  (length collect_after =? length readers) && forallb (fun e => err_eqb e EShut) collect_after.
